@@ -413,6 +413,74 @@ def rule_gate_scope(ctx):
         raise AnalysisError('C14.f: %d enqueues / %d held requests found (vacuity guard)' % (n_frames, n_held))
 
 
+def rule_ctor(ctx):
+    """The lease object enforces what it was given: the count and the time-to-live the gate reads are the constructor's
+    arguments, unmodified (a default may replace an argument only when it is None - a zero time-to-live or a zero
+    count are meaningful: "no requests"); the request counter starts at 0 and the creation time is taken."""
+    rep = ctx.report
+    dl = ctx.repo.cls('rsocket.lease:DefinedLease')
+    init = dl.lookup('__init__')
+    gate = dl.lookup('_is_request_allowed') or dl.lookup('is_request_allowed')
+    if init is None or gate is None:
+        raise AnalysisError('C14.g: DefinedLease.__init__ / gate vanished')
+    params = init.params()[1:]
+    if len(params) < 2:
+        raise AnalysisError('C14.g: DefinedLease.__init__ takes %s' % params)
+    # attributes the gate reads
+    read = set()
+    for p in ctx.paths(gate, dl, inline_depth=2):
+        for c in p.events:
+            if c.kind == 'cond':
+                for x in _flat(strip_epoch(c.data['key'])):
+                    if isinstance(x, tuple) and len(x) >= 3 and x[0] == 'attr' and x[1] == ('self',):
+                        read.add(x[2])
+    ok = True
+    why = ''
+    n = 0
+    stored = {}
+    for p in ctx.paths(init, dl, inline_depth=1):
+        if p.outcome != 'return':
+            continue
+        n += 1
+        last = {}
+        for e in p.events:
+            if e.kind == 'store' and e.data['target'][0] == 'attr' and e.data['target'][1] == ('self',):
+                last[e.data['target'][2]] = (strip_epoch(e.data['value'].term), e)
+        for attr, (val, ev) in last.items():
+            stored.setdefault(attr, []).append(val)
+            if attr not in read:
+                continue
+            src = [q for q in params if ('param', init.qualname, q) in _flat(val) or val == ('param', init.qualname, q)]
+            if val[0] == 'param':
+                continue
+            if val == ('const', 0):
+                continue  # the counter
+            if val[0] in ('call', 'pure') and 'now' in str(val[1]):
+                continue  # creation time
+            # anything else: a replacement value; allowed only where the argument it replaces is None
+            nones = [c for c in p.events if c.kind == 'cond' and c.data['key'][0] == 'isnone' and
+                     strip_epoch(c.data['key'][1])[0] == 'param' and c.data['value'] is True and c.seq < ev.seq]
+            if not nones:
+                ok, why = False, ('self.%s, which the gate reads, is set to %s instead of the constructor argument on a '
+                                  'path where that argument is not None (a falsy argument - 0 requests, a zero '
+                                  'time-to-live - is replaced by a default)' % (attr, fmt_term(val)[:60]))
+    by_param = {a: v for a, v in stored.items() if a in read and any(x[0] == 'param' for x in v)}
+    if ok and len(by_param) < 2:
+        ok, why = False, 'the gate reads %s but the constructor stores its arguments into %s' % (
+            sorted(read), sorted(by_param))
+    rep.add('C14.g', 'DefinedLease.__init__ / the gate enforces the constructor arguments', init, ok and n > 0,
+            why or 'count and time-to-live stored unmodified; counter 0; creation time now() (%d paths)' % n)
+
+
+def _flat(t):
+    out = []
+    if isinstance(t, tuple):
+        out.append(t)
+        for x in t:
+            out.extend(_flat(x))
+    return out
+
+
 def rule_plumbing(ctx):
     from . import plumbing
     plumbing.rule_lease_drain(ctx, 'C14.d')
@@ -429,4 +497,4 @@ def rule_dispatch(ctx):
 
 RULES = [('C14.a', rule_a), ('C14.b', rule_b), ('C14.c', rule_c), ('C14.d', rule_d), ('C14.e', rule_e),
          ('C08.g', rule_f),
-         ('C14.f', rule_gate_scope), ('C14.d+C14.e', rule_plumbing), ('C01.e', rule_dispatch)]
+         ('C14.f', rule_gate_scope), ('C14.g', rule_ctor), ('C14.d+C14.e', rule_plumbing), ('C01.e', rule_dispatch)]
